@@ -26,6 +26,10 @@ def records(rnd, maxn=40):
         x = rnd.random()
         if x < 0.08: out.append(rnd.choice([1, 'x', None, True, [1, 2], [{'a': 1}], 2.5]))
         elif x < 0.25 and out: out.append(rnd.choice(out))     # exact repeat
+        elif x < 0.33 and out:
+            # the same value spelled with its members in another order (equal under =, different as text)
+            v = rnd.choice(out)
+            out.append(dict(reversed(list(v.items()))) if isinstance(v, dict) else v)
         else: out.append(record(rnd))
     return out
 
@@ -44,7 +48,8 @@ def stream(vals, rnd=None):
 FILTERS = ['(= .a 1)', '(!= .k "x")', '(< .a 2)', '.flag', '(>= .a 1)', '(and (< .a 3) (!= .a 0))', '(not (= .b "x"))',
            '(or .flag (= .a 2))', '(= (size .arr) 2)']
 SELECTS = ['.a', '.b=B', '.k', '(size .arr)=n', '.arr', '.', '(get . "a")=ga', '(? (= .a 1) "one" "other")=c',
-           '(default .a .b 0)=d', '.b.c=bc', '.arr#0=first', '(map .arr .a)=as', '(filter .arr (= .k "x"))=xs', '.a=dup', '.k=dup']
+           '(default .a .b 0)=d', '.b.c=bc', '.arr#0=first', '(map .arr .a)=as', '(filter .arr (= .k "x"))=xs', '.a=dup', '.k=dup',
+           '(group_by .arr .k)=g', '(group_by .arr (stringify .a))=ga']
 SORTS = ['.a', '.b=desc', '.k=ASC', '.a=DESC', '.k', '(size .arr)=Desc', '.b']
 GROUPS = ['.k', '(? (= .a 1) "one" "rest")', '.b', '(map .arr .k)']
 SPLITS = ['.arr', '(filter .arr (= .k "x"))']
@@ -63,17 +68,21 @@ def pipeline_cfg(rnd, want_limit=None, allow_group=True, allow_sort=True, allow_
     for _ in range(rnd.choice([0, 0, 1, 2, 3])):
         s = rnd.choice(SELECTS)
         if s not in c['select']: c['select'].append(s)
+    if c['split'] is not None and rnd.random() < 0.5:
+        # below --split-by every later stage still sees the enclosing record through ^
+        c['select'].append(rnd.choice(['^.k=pk', '^.a=pa', '(size ^.arr)=pn']))
     if allow_unique and rnd.random() < 0.3: c['unique'] = True
     if allow_sort and not streaming:
         for _ in range(rnd.choice([0, 0, 1, 1, 2, 3])):
             s = rnd.choice(SORTS)
             if s.split('=')[0] not in [x.split('=')[0] for x in c['sort']]: c['sort'].append(s)
+        if c['split'] is not None and rnd.random() < 0.3: c['sort'].append(rnd.choice(['^.a', '^.k=DESC']))
     lim = want_limit if want_limit is not None else (rnd.random() < 0.5)
     if lim:
         c['skip'] = rnd.choice([0, 0, 1, 2, 3, 6])
         c['take'] = rnd.choice([None, 0, 1, 2, 3, 4, 6])
         if c['skip'] == 0 and c['take'] is None: c['take'] = 2
     if allow_group and not streaming and rnd.random() < 0.35:
-        c['group'] = rnd.choice(GROUPS + [True, True])
+        c['group'] = rnd.choice(GROUPS + [True, True] + (['^.k'] if c['split'] is not None else []))
     if rnd.random() < 0.15: c['only_objs'] = True
     return c
